@@ -23,7 +23,7 @@ def build(env, per_cell, psk_bits_all):
                 kdf = rnd.choice(gen.KDFS)
                 aead = rnd.choice(gen.SEAL_AEADS)
                 s = cw.session(kem, kdf, aead, sid="a%d" % len(cw.sessions))
-                pl = rnd.choice([1, 8, 32, 64]) if j else 32
+                pl = rnd.choice([1, 8, 32, 64, 65, 100, 129, 300]) if j else 32
                 psk = g.raw(pl) if mode in (1, 3) else None
                 pskid = g.raw(rnd.choice([1, 16])) if mode in (1, 3) else None
                 info = g.rbytes(rnd.choice([0, 9]))
@@ -58,11 +58,19 @@ def build(env, per_cell, psk_bits_all):
                     impostor("unauthenticated_mode", 1 if mode == 3 else 0, **pskargs)
                 if mode in (1, 3):
                     auth = dict(sks="$kS.sk", pks="$kS.pk") if mode == 3 else {}
-                    bits = range(8 * pl) if (psk_bits_all and pl <= 64) else sorted(set(rnd.randrange(8 * pl) for _ in range(min(8 * pl, 10))))
+                    if psk_bits_all and pl <= 64:
+                        bits = range(8 * pl)
+                    else:
+                        bits = sorted(set([0, 8 * pl - 1, 8 * 64 + 3, 8 * (pl - 2)] + [rnd.randrange(8 * pl) for _ in range(24)]))
+                        bits = [b for b in bits if 0 <= b < 8 * pl]
                     for b in bits:
                         impostor("psk_bit:%d" % b, mode, psk=cl.hexs(psk) + "^flip:%d" % b, pskid=pskid, **auth)
                     impostor("psk_other_id", mode, psk=psk, pskid=cl.hexs(pskid) + "^flip:0", **auth)
                     impostor("psk_appended_zero", mode, psk=cl.hexs(psk) + "^app:00", pskid=pskid, **auth)
+                    if pl > 1:
+                        impostor("psk_prefix", mode, psk=cl.hexs(psk) + "^trunc:%d" % (pl - 1), pskid=pskid, **auth)
+                    if pl > 64:
+                        impostor("psk_prefix", mode, psk=cl.hexs(psk) + "^trunc:64", pskid=pskid, **auth)
                     impostor("no_psk", 2 if mode == 3 else 0, **auth)
                 # positive control last: the honest message still opens on the honest receiver
                 s.call("open", ctx="R", api="alloc", ct="$h.full", aad="a1", role="control")
